@@ -920,6 +920,12 @@ def check_file_case(ctx, pq, w, case, path, conf_budget):
     ctx.count("file.split_class", ",".join(classes) or "good")
     ctx.count("file.page_version", ",".join(map(str, versions)))
     ctx.count("file.values", ",".join(encs))
+    ctx.count("file.page_stats", ",".join(sorted({str(m) for rg in case["rgs"] for lay in rg["layout"].values() for m in (lay.get("page_stats") or [None])})))
+    for rg in case["rgs"]:
+        for lay in rg["layout"].values():
+            if lay["version"] == 2 and lay.get("codec"):
+                for fl in (lay.get("is_compressed") or [None]):
+                    ctx.count("file.v2_codec_is_compressed", "%s/%s/%s" % (lay["codec"], fl, "dict" if lay["dictionary"] else "plain"))
     ctx.count("file.codecs", ",".join(sorted({str(lay.get("codec")) for rg in case["rgs"] for lay in rg["layout"].values()})))
     ctx.count("file.kinds", ",".join(sorted(c["kind"] + ("" if c["kind"] == "flat" else ("/opt" if c["row_opt"] else "/req") + ("/opt" if c["elem_opt"] else "/req"))
                                             for c in case["cols"])))
@@ -973,7 +979,13 @@ def gen_layout(rng, rep, version, force_cuts=None, maxcuts=3, ptype=None):
     else:
         cand = list(range(1, len(rep))) if version == 1 else row_boundaries(rep)
         cuts = sorted(rng.sample(cand, min(len(cand), rng.choice([0, 1, 1, 2, maxcuts]))))
+    npages = len(cuts) + 1
+    modes = [None, None, "all", "elems", "zero"]
     return dict(cuts=cuts, version=version, dictionary=(rng.random() < 0.5 and ptype != "boolean"),
+                # optional header content a reader must not let change the rows: page / chunk Statistics.null_count in three
+                # counting conventions, and per v2 page the is_compressed flag absent / true / false (mixed within a chunk)
+                page_stats=[rng.choice(modes) for _ in range(npages)], chunk_stats=rng.choice(modes),
+                is_compressed=[rng.choice([None, True, False]) for _ in range(npages)],
                 level_style=rng.choice(["mixed", "rle", "bp"]), codec=rng.choice([None, None, "SNAPPY", "GZIP"]),
                 legacy_dict=rng.random() < 0.5)
 
@@ -1031,6 +1043,30 @@ def stage_files(ctx, pq, w):
                 case = {"stage": "file-map-fixed", "cols": [col], "rgs": [rg]}
                 nfile += 1
                 check_file_case(ctx, pq, w, case, os.path.join(ctx.scratch, "f%d.parquet" % nfile), conf_budget)
+    # ---- fixed grid: optional header content that must not change the rows (seeded changes C15-3, C15-4) ----------
+    hrows = [[1, None, 2], None, [], [None], [3], None, [4, 5], [], [None, None], [6]]
+    for ptype in ("int64", "utf8"):
+        pl = pool(ptype)
+        rows = [None if r is None else [None if e is None else pl[e % len(pl)] for e in r] for r in hrows]
+        rep, de, vals = NF.shred(rows, True, True)
+        rb = row_boundaries(rep)
+        cuts = [rb[2], rb[6]]
+        for dictionary in (False, True):
+            for mode in (None, "all", "elems", "zero"):
+                lay = dict(cuts=cuts, version=1, dictionary=dictionary, level_style="mixed", codec=None,
+                           page_stats=[mode] * 3, chunk_stats=mode)
+                col = dict(name="c", kind="list", row_opt=True, elem_opt=True, ptype=ptype)
+                case = {"stage": "file-header-variants", "cols": [col], "rgs": [{"rows": {"c": rows}, "layout": {"c/elem": lay}}]}
+                nfile += 1
+                check_file_case(ctx, pq, w, case, os.path.join(ctx.scratch, "f%d.parquet" % nfile), conf_budget)
+            for codec in ("SNAPPY", "GZIP"):
+                for flags in ([None, True, False], [False, False, True]):
+                    lay = dict(cuts=cuts, version=2, dictionary=dictionary, level_style="mixed", codec=codec,
+                               is_compressed=flags, page_stats=["all", None, "elems"])
+                    col = dict(name="c", kind="list", row_opt=True, elem_opt=True, ptype=ptype)
+                    case = {"stage": "file-header-variants", "cols": [col], "rgs": [{"rows": {"c": rows}, "layout": {"c/elem": lay}}]}
+                    nfile += 1
+                    check_file_case(ctx, pq, w, case, os.path.join(ctx.scratch, "f%d.parquet" % nfile), conf_budget)
     # ---- random files ------------------------------------------------------------------------
     nrand = 400 if ctx.quick() else 15000
     for _ in range(nrand):
